@@ -15,16 +15,15 @@ for d in sorted(glob.glob(os.path.join(V, "seeded", "*"))):
     meta = json.load(open(os.path.join(d, "meta.json")))
     p2 = os.path.join(d, "patch-rebased.diff")
     jobs.append((p2 if os.path.exists(p2) else os.path.join(d, "patch.diff"), None, [meta["property"]]))
-for patch, key, props in jobs:
+def one(job):
+    n, (patch, key, props) = job
     try:
         d = make_copy(patch)
-    except SystemExit as e:
-        print("%-60s PATCH DOES NOT APPLY" % os.path.relpath(patch, V), flush=True)
-        miss += 1
-        continue
+    except SystemExit:
+        return "%-60s PATCH DOES NOT APPLY" % os.path.relpath(patch, V), 1
     o = tempfile.mkdtemp(prefix="ssl-mut-out-")
     try:
-        env = dict(os.environ, SSL_REPO=d, SSL_OUT=o)
+        env = dict(os.environ, SSL_REPO=d, SSL_OUT=o, SSL_WORKER="-w%d" % (n % WORKERS))
         bad = []
         for p in props:
             c = subprocess.run([os.path.join(V, "check"), p, "--tier", "quick"], env=env, stdout=subprocess.PIPE, stderr=subprocess.STDOUT, text=True)
@@ -32,8 +31,27 @@ for patch, key, props in jobs:
             hit = c.returncode == 1 and (key is None and keys or any(key in k for k in keys))
             if not hit:
                 bad.append(p)
-        print("%-60s %s" % (os.path.relpath(patch, V), "ok" if not bad else "MISSED by " + ",".join(bad)), flush=True)
-        miss += len(bad)
+        return "%-60s %s" % (os.path.relpath(patch, V), "ok" if not bad else "MISSED by " + ",".join(bad)), len(bad)
     finally:
         shutil.rmtree(d, ignore_errors=True); shutil.rmtree(o, ignore_errors=True)
-sys.exit(1 if miss else 0)
+
+
+WORKERS = 6
+if __name__ == "__main__":
+    from concurrent.futures import ThreadPoolExecutor
+    only = sys.argv[1:]
+    if only:
+        jobs = [j for j in jobs if any(x in j[0] for x in only)]
+    # jobs of one worker must not overlap in time: give every worker its own queue
+    queues = [[(i, j) for i, j in enumerate(jobs) if i % WORKERS == w] for w in range(WORKERS)]
+
+    def drain(q):
+        out = []
+        for job in q:
+            line, m = one(job)
+            print(line, flush=True)
+            out.append(m)
+        return sum(out)
+    with ThreadPoolExecutor(WORKERS) as ex:
+        miss = sum(ex.map(drain, queues))
+    sys.exit(1 if miss else 0)
